@@ -594,6 +594,42 @@ def load_table(path):
     return {e["key"]: e for e in d.get("sites", [])}
 
 
+_FP_CACHE = {}
+
+
+def stable_key(prog, k):
+    """function key with closure ordinals replaced by a content fingerprint (the set of callee names
+    and named locals of the closure body), so inserting another closure earlier in the parent
+    function does not shift the keys of reviewed sites."""
+    if "{closure#" not in k:
+        return k
+    if k in _FP_CACHE:
+        return _FP_CACHE[k]
+    import hashlib, re
+    parts = k.split("::")
+    out = []
+    prefix = []
+    for part in parts:
+        prefix.append(part)
+        m = re.match(r"^\{closure#(\d+)\}$", part)
+        if m:
+            f = prog.funcs.get("::".join(prefix))
+            names = set()
+            if f is not None:
+                for bi, t in f.calls():
+                    c = callee_of(t)
+                    if c and c.get("name"):
+                        names.add(c["name"])
+                names |= {l.get("name") for l in f.locals if l.get("name")}
+            fp = hashlib.sha1(",".join(sorted(names)).encode()).hexdigest()[:6]
+            out.append("{closure~%s}" % fp)
+        else:
+            out.append(part)
+    r = "::".join(out)
+    _FP_CACHE[k] = r
+    return r
+
+
 def inventory(prog, entry_keys, stop, table, scope_crates=None):
     """Enumerate and try to discharge every panic site reachable from the entries.
 
@@ -608,7 +644,7 @@ def inventory(prog, entry_keys, stop, table, scope_crates=None):
     for k in sorted(keys):
         f = prog.funcs[k]
         for s in sites_of(f):
-            key = "%s#%s" % (k, s["id"])
+            key = "%s#%s" % (stable_key(prog, k), s["id"])
             ok, how = discharge(an, f, s)
             rec = {"func": k, "site": s, "key": key, "at": s["at"], "path": ir.Program.path_to(reach, k)}
             if ok:
